@@ -441,4 +441,61 @@ theorem disconnect_tip_unfold (c : Ctx) (s s' : Store) (height : Nat) (bh : BlkI
       rw [hps, ← hr]
       rfl
 
+theorem eraseBlocks_pend (s : Store) (hs : List Nat) :
+    (hs.foldl (fun (s : Store) h => { s with blocks := AMap.erase s.blocks h }) s).pending = s.pending ∧
+    (hs.foldl (fun (s : Store) h => { s with blocks := AMap.erase s.blocks h }) s).pendIns = s.pendIns :=
+  foldl_inv (fun (a : Store) => a.pending = s.pending ∧ a.pendIns = s.pendIns) _ _ _ ⟨rfl, rfl⟩ (fun _ _ _ ha => ha)
+
+/-- ROLLBACK PHASE of disconnecting the tip block `b` (recorded ids `ids`): right before the purge the pending
+    stores represent `P` plus the recorded non-coinbase transactions of `b`; the purge then runs over `rem`,
+    outputs of recorded coinbases of `b`, among them every one whose credit was present -/
+theorem rollback_phase (rank : TxId → Nat) (c : Ctx) (s s' : Store) (b : Block) (P : List Tx) (ids : List TxId)
+    (h : disconnectBlock c s b.height = .ok s')
+    (hsync : s.syncedTo = b.height)
+    (hblk : AMap.get s.blocks b.height = some (b.id, ids))
+    (hrec : ∀ id ∈ ids, ∃ loc t, AMap.get s.txrecs (id, ⟨b.height, b.id⟩) = some loc ∧
+        c.node.txByFileLoc loc = some t ∧ t.id = id ∧ t ∈ b.txs)
+    (hidnd : ids.Nodup)
+    (hbnd : (b.txs.map (·.id)).Nodup)
+    (hrel : PendRel rank s P)
+    (hnp : ∀ id ∈ ids, AMap.get s.pending id = none)
+    (hrk : ∀ t ∈ b.txs, ∀ i ∈ t.ins, rank i.tx < rank t.id) :
+    ∃ (s1 : Store) (rem : List (TxId × Nat)),
+      PendRel rank s1 (P ++ b.txs.filter (fun t => !t.cb && ids.contains t.id)) ∧
+      pendSide s' = pendSide (rem.foldl (purgeSpenders c.own) s1) ∧
+      (∀ op ∈ rem, ∃ u ∈ b.txs, u.cb = true ∧ u.id ∈ ids ∧ op.1 = u.id ∧ op.2 < u.outs.length) ∧
+      (∀ u ∈ b.txs, u.cb = true → u.id ∈ ids → ∀ j, j < u.outs.length →
+        (AMap.get s.credits ⟨u.id, ⟨b.height, b.id⟩, j⟩).isSome = true → (u.id, j) ∈ rem) := by
+  obtain ⟨acc, hloop, hps⟩ := disconnect_tip_unfold c s s' b.height b.id ids h hsync hblk
+  obtain ⟨L1, L2, L3, _, L5, _⟩ := rbLoop rank c b ⟨b.height, b.id⟩ hbnd hrk ids.reverse _ acc hloop
+    ((List.reverse_perm ids).nodup_iff.2 hidnd) (fun id hid => hrec id (List.mem_reverse.1 hid)) hrel.wf
+    (fun id hid => hnp id (List.mem_reverse.1 hid))
+  obtain ⟨e1, e2⟩ := eraseBlocks_pend acc.s acc.heights
+  have hfil : ∀ t, t ∈ b.txs.filter (fun t => !t.cb && ids.contains t.id) ↔ t ∈ b.txs ∧ t.cb = false ∧ t.id ∈ ids := by
+    intro t; simp [List.mem_filter]
+  refine ⟨_, acc.cb, ⟨PendWF.congr L1 e1 e2, fun id t => ?_, ?_⟩, hps, fun op hop => ?_, fun u hu hcb huid j hj hcr => ?_⟩
+  · rw [e1, L2, List.mem_append, hfil]
+    show AMap.get s.pending id = some t ∨ _ ↔ _
+    rw [hrel.ids]
+    constructor
+    · rintro (⟨h1, h2⟩ | ⟨h1, h2, h3, h4⟩)
+      · exact ⟨Or.inl h1, h2⟩
+      · exact ⟨Or.inr ⟨h2, h4, by rw [h3]; exact List.mem_reverse.1 h1⟩, h3⟩
+    · rintro ⟨h1 | ⟨h1, h2, h3⟩, h4⟩
+      · exact Or.inl ⟨h1, h4⟩
+      · exact Or.inr ⟨List.mem_reverse.2 (by rw [← h4]; exact h3), h1, h4, h2⟩
+  · rw [List.map_append, List.nodup_append]
+    refine ⟨hrel.nodup, List.Nodup.sublist (List.filter_sublist.map _) hbnd, ?_⟩
+    intro x hx y hy hxy
+    obtain ⟨t, ht, rfl⟩ := List.mem_map.1 hx
+    obtain ⟨t', ht', rfl⟩ := List.mem_map.1 hy
+    have h1 := hrel.pending_of_mem ht
+    have h2 := hnp t'.id ((hfil t').1 ht').2.2
+    have hxy' : t.id = t'.id := hxy
+    rw [hxy', h2] at h1; cases h1
+  · rcases L3 op hop with hop | ⟨u, hu, q1, q2, q3⟩
+    · cases hop
+    · exact ⟨u, hu, q1, List.mem_reverse.1 q2, q3⟩
+  · exact L5 u hu hcb (List.mem_reverse.2 huid) j hj hcr
+
 end MW.Lemmas.PendHist
